@@ -176,7 +176,12 @@ class TensorMesh(discretize.TensorMesh if discretize else BaseMesh):
             equal *= np.allclose(self.h[0], mesh.h[0], atol=0)
             equal *= np.allclose(self.h[1], mesh.h[1], atol=0)
             equal *= np.allclose(self.h[2], mesh.h[2], atol=0)
-            equal *= np.allclose(self.origin, mesh.origin, atol=0)
+            # The origin is compared relative to the smallest cell width, not
+            # relative to its own magnitude: in projected coordinates (origin
+            # ~1e6) a purely relative tolerance treats meshes that are shifted
+            # by several cells as equal.
+            tol = 1e-5*min(np.min(np.abs(h)) for h in self.h)
+            equal *= np.allclose(self.origin, mesh.origin, rtol=0, atol=tol)
 
         return bool(equal)
 
